@@ -53,6 +53,89 @@ type vkNet struct {
 	// writes to a crashed host return an error
 	unreach   bool
 	slowWrite bool
+	// a crashed host is frozen, not gone: its address still accepts connections, nothing ever reads them
+	stall     bool
+	stallLim  time.Duration
+	held      []net.Conn
+	stuck     map[*vkStuck]time.Time
+}
+
+// the initiator's end of a connection to a frozen host.  Like a TCP connection whose peer never reads, it takes
+// a little data (the socket buffers: 256 bytes here) and then blocks the writer until the write deadline; reads
+// block until the read deadline.  A write that is still blocked long after every deadline the code can have set
+// is recorded (kind 18 row).
+type vkStuck struct {
+	n      *vkNet
+	id     int
+	mu     sync.Mutex
+	taken  int
+	wdl    time.Time
+	rdl    time.Time
+	closed chan struct{}
+	once   sync.Once
+}
+
+func (c *vkStuck) wait(dl time.Time) error {
+	var tc <-chan time.Time
+	if !dl.IsZero() {
+		tm := time.NewTimer(time.Until(dl))
+		defer tm.Stop()
+		tc = tm.C
+	}
+	select {
+	case <-c.closed:
+		return io.ErrClosedPipe
+	case <-tc:
+		return vkTimeout{}
+	}
+}
+func (c *vkStuck) Write(b []byte) (int, error) {
+	c.mu.Lock()
+	if c.taken+len(b) <= 256 {
+		c.taken += len(b)
+		c.mu.Unlock()
+		return len(b), nil
+	}
+	dl := c.wdl
+	c.mu.Unlock()
+	c.n.mu.Lock()
+	c.n.stuck[c] = time.Now()
+	c.n.mu.Unlock()
+	err := c.wait(dl)
+	c.n.mu.Lock()
+	if d := time.Since(c.n.stuck[c]); d > c.n.stallLim {
+		c.n.logEv(c.n.now(), 18, int64(c.id), int64(d/time.Millisecond))
+	}
+	delete(c.n.stuck, c)
+	c.n.mu.Unlock()
+	return 0, err
+}
+func (c *vkStuck) Read(b []byte) (int, error) {
+	c.mu.Lock()
+	dl := c.rdl
+	c.mu.Unlock()
+	return 0, c.wait(dl)
+}
+func (c *vkStuck) Close() error         { c.once.Do(func() { close(c.closed) }); return nil }
+func (c *vkStuck) LocalAddr() net.Addr  { return &net.TCPAddr{IP: net.IPv4(10, 0, 0, 0), Port: 1} }
+func (c *vkStuck) RemoteAddr() net.Addr { return &net.TCPAddr{IP: net.IPv4(10, 0, 0, 0), Port: 2} }
+func (c *vkStuck) SetDeadline(t time.Time) error {
+	c.mu.Lock()
+	c.wdl, c.rdl = t, t
+	c.mu.Unlock()
+	return nil
+}
+func (c *vkStuck) SetReadDeadline(t time.Time) error {
+	c.mu.Lock()
+	c.rdl = t
+	c.mu.Unlock()
+	return nil
+}
+func (c *vkStuck) SetWriteDeadline(t time.Time) error {
+	c.mu.Lock()
+	c.wdl = t
+	c.mu.Unlock()
+	return nil
 }
 
 type vkTr struct {
@@ -336,6 +419,14 @@ func (t *vkTr) DialAddressTimeout(a Address, d time.Duration) (net.Conn, error) 
 	if down {
 		return nil, fmt.Errorf("use of closed network connection")
 	}
+	if bad && dest != nil && n.stall {
+		time.Sleep(lat)
+		sc := &vkStuck{n: n, id: t.id, closed: make(chan struct{})}
+		n.mu.Lock()
+		n.held = append(n.held, sc)
+		n.mu.Unlock()
+		return sc, nil
+	}
 	if bad {
 		time.Sleep(lat)
 		return nil, fmt.Errorf("connection refused")
@@ -447,7 +538,9 @@ const (
 	vkSlowWrite = 64
 	// the application always has exactly 255 one-byte broadcasts to piggy-back
 	vkChatty = 128
-	vkMax    = 32
+	// a crashed host is frozen: connections to its address are accepted and never read
+	vkStall = 256
+	vkMax   = 32
 )
 
 type vkSim struct {
@@ -625,6 +718,11 @@ func vkRun(t *testing.T, c *vfCase, st *vfStats) {
 	}
 	vn.unreach = c.Cfg[5]&vkUnreach != 0
 	vn.slowWrite = c.Cfg[5]&vkSlowWrite != 0
+	vn.stall = c.Cfg[5]&vkStall != 0
+	vn.stuck = map[*vkStuck]time.Time{}
+	// the longest deadline the code sets on a stream: the TCP fallback ping's (the awareness-scaled probe
+	// interval); push/pull and user streams use TCPTimeout = 2 probe intervals
+	vn.stallLim = time.Duration(c.Cfg[6]+2) * pi
 	s := &vkSim{t: t, c: c, vn: vn, N: N, pi: pi, ms: make([]*Memberlist, vkMax), dels: make([]*vkDel, vkMax), gen: make([]int64, vkMax), live: make([]bool, vkMax), left: make([]bool, vkMax)}
 	for _, op := range c.Ops {
 		time.Sleep(time.Duration(op[0]) * time.Millisecond)
@@ -759,6 +857,18 @@ func vkRun(t *testing.T, c *vfCase, st *vfStats) {
 		st.OpHist[fmt.Sprintf("op%d", op[1])]++
 	}
 	vn.mu.Lock()
+	for sc, since := range vn.stuck {
+		if d := time.Since(since); d > vn.stallLim {
+			vn.logEv(vn.now(), 18, int64(sc.id), int64(d/time.Millisecond))
+		}
+	}
+	held := vn.held
+	vn.held = nil
+	vn.mu.Unlock()
+	for _, h := range held {
+		h.Close()
+	}
+	vn.mu.Lock()
 	vn.tapOn = false
 	c.Obs = vn.ev
 	st.ObsHist["packets"] += vn.pkts
@@ -788,6 +898,9 @@ func vkCfg(r *vfRng, kind int, N int) []int64 {
 	awmax := int64([]int{8, 4}[r.n(2)])
 	smm := int64([]int{6, 3}[r.n(2)])
 	cfg := []int64{int64(kind), int64(N), pi, ptdiv, int64(r.n(4)), flags, awmax, smm, int64(r.n(1 << 30))}
+	if cfg[8]%4 == 0 {
+		cfg[5] |= vkStall
+	}
 	mult := 2 + r.n(4)
 	for i := 0; i < N; i++ {
 		cfg = append(cfg, int64(mult), int64(suspicionTimeout(mult, N, time.Duration(pi)*time.Millisecond)/time.Millisecond))
